@@ -55,7 +55,7 @@ MODELLED = {
     "C07": {"geoh5py/objects/points.py": ["Points.remove_vertices", "Points.copy"],
             "geoh5py/objects/cell_object.py": ["CellObject.remove_vertices", "CellObject.remove_cells", "CellObject.copy"],
             "geoh5py/objects/object_base.py": ["ObjectBase.remove_children_values"],
-            "geoh5py/data/numeric_data.py": ["NumericData.format_length"]},
+            "geoh5py/data/numeric_data.py": ["NumericData.format_length"], "geoh5py/data/data.py": ["Data.copy"]},
     "C08": {"geoh5py/data/numeric_data.py": ["NumericData.format_values", "NumericData.format_length"],
             "geoh5py/data/integer_data.py": ["IntegerData.format_type"], "geoh5py/data/boolean_data.py": ["BooleanData.format_type"],
             "geoh5py/data/reference_value_map.py": ["ReferenceValueMap._validate_key_value", "ReferenceValueMap.map"],
